@@ -1123,11 +1123,12 @@ func specEncoders(c *hx.Ctx) {
 func init() { hx.Register("C05", Run, Replay) }
 
 func Run(c *hx.Ctx) {
-	c.Rep.Rule = "exhaustive: every byte string of length <= 3 over {00,01,7F,80,FF,z,~,>} through ASCIIHex/ASCII85 (canonical and white-space/case styled) and, tiled into rows, through Flate with Predictor {1,2,10..15} x Colors 1..4 x Columns 1..8 (quick tier: full for small geometries, every 23rd otherwise); all per-row PNG filter-type triples over a geometry grid; every string of length <= 4 (thorough 5/6) over alphabets of encoded characters fed raw to the ASCII decoders. random: pipelines of 1..3 stages of {Flate (no parms, Predictor 1, TIFF, PNG with independent per-row types), ASCIIHex, ASCII85} with full or abbreviated names, lengths 0..64 KiB, random/zero/FF/periodic/ramp/sparse content, Columns 1..700, Colors 1..4, DecodeParms as dict, array, null or absent, encoded by the harness's own encoders (from the PDF/PNG/TIFF specifications) and compress/zlib at five levels. expansion: the named contents (all-zero, all-0xFF, one row repeated) at 16 KiB and 64 KiB under no predictor / Predictor 1 / TIFF / PNG None / Up / mixed, then random plans over a ladder of lengths around the powers of two up to 64 KiB x compressible contents (constant, short period, repeated row, long runs, zeros before/after a random part, ramps, PDF-like text) x zlib levels x shapes (Flate alone, behind or before an ASCII filter, Flate over Flate, a predictor stage over a Flate stage), so that Flate stages expanding by every factor from 1 to ~1000 occur in every run. undecodable classes built by damaging conforming encodings in a way the specification forbids. dictionary level (c05.sd / c05.sess): every pipeline and every malformed variant again through a freshly written stream dictionary (other keys, shuffled key order, numbers as Int or Real), every parameter key x every kind of value (all object types, integers and Reals n +- 1/16, 1/2 around the values of interest), arbitrary object trees under Filter/DecodeParms, histories of 2..8 Decode() calls on 1..4 streams, and /CCITTFaxDecode dictionaries (K, Columns, Rows, BlackIs1 as Int/Real/other objects or absent) on Group-4 images written by the harness (T.6: white or a vertical stripe) with x/image/ccitt's own results for a grid of argument combinations. resource bounds of CCITTFaxDecode from both sides: Columns x Rows over {-2^62, -2^31-1, -1, 0, 1, 2, 8 and the Reals 0.5, 0.9375, 1.5, -0.5, -1.5, 8.5} x {-2^62, -2^31-1, -2, -1, 0, 1, 2, 3, -0.5, -1.5, 0.5, 2.5, absent} (every pair, every run); Group-4 images whose decoded size is exactly 2^26-1, 2^26 and 2^26+1 bytes (factorisations of these numbers into bytes-per-row x rows chosen by the seed), one row beyond, /Rows capping longer data at the bound, and 1..4 GiB images, all-white or striped, height given or detected (quick tier: one image per class on the implementation, bound and bound+1 also through the model; thorough: ten images, all through the model, c05.sdcz). non-trivial = decoded without error to a non-empty string; distinct by (Filter, DecodeParms, data)."
+	c.Rep.Rule = "exhaustive: every byte string of length <= 3 over {00,01,7F,80,FF,z,~,>} through ASCIIHex/ASCII85 (canonical and white-space/case styled) and, tiled into rows, through Flate with Predictor {1,2,10..15} x Colors 1..4 x Columns 1..8 (quick tier: full for small geometries, every 23rd otherwise); all per-row PNG filter-type triples over a geometry grid; every string of length <= 4 (thorough 5/6) over alphabets of encoded characters fed raw to the ASCII decoders. random: pipelines of 1..3 stages of {Flate (no parms, Predictor 1, TIFF, PNG with independent per-row types), ASCIIHex, ASCII85} with full or abbreviated names, lengths 0..64 KiB, random/zero/FF/periodic/ramp/sparse content, Columns 1..700, Colors 1..4, DecodeParms as dict, array, null or absent, encoded by the harness's own encoders (from the PDF/PNG/TIFF specifications) and compress/zlib at five levels. expansion: the named contents (all-zero, all-0xFF, one row repeated) at 16 KiB and 64 KiB under no predictor / Predictor 1 / TIFF / PNG None / Up / mixed, then random plans over a ladder of lengths around the powers of two up to 64 KiB x compressible contents (constant, short period, repeated row, long runs, zeros before/after a random part, ramps, PDF-like text) x zlib levels x shapes (Flate alone, behind or before an ASCII filter, Flate over Flate, a predictor stage over a Flate stage), so that Flate stages expanding by every factor from 1 to ~1000 occur in every run. undecodable classes built by damaging conforming encodings in a way the specification forbids. byte classes of the ASCII filters: every byte value 0..255 at every kind of place of ASCIIHex data (for the high / low digit of a pair, between digits, first, right before the EOD marker, alone, after the EOD marker, in data without a marker) and of ASCII85 data (inside a group, between groups, first, before ~>, after ~>, for a digit of a full group, without a marker), written in either case with white space interleaved, decoded from the description and from a written dictionary: a digit joins the digits, white space changes nothing, an EOD marker ends the data there, bytes after the marker are not data, every other byte is an error; and chains of 1..3 stages in which one ASCII stage at any place carries a byte its filter does not allow (any of the 227 resp. 163 such bytes, anywhere before the marker) while the other stages are conforming: an error. dictionary level (c05.sd / c05.sess): every pipeline and every malformed variant again through a freshly written stream dictionary (other keys, shuffled key order, numbers as Int or Real), every parameter key x every kind of value (all object types, integers and Reals n +- 1/16, 1/2 around the values of interest), arbitrary object trees under Filter/DecodeParms, histories of 2..8 Decode() calls on 1..4 streams, and /CCITTFaxDecode dictionaries (K, Columns, Rows, BlackIs1 as Int/Real/other objects or absent) on Group-4 images written by the harness (T.6: white or a vertical stripe) with x/image/ccitt's own results for a grid of argument combinations. resource bounds of CCITTFaxDecode from both sides: Columns x Rows over {-2^62, -2^31-1, -1, 0, 1, 2, 8 and the Reals 0.5, 0.9375, 1.5, -0.5, -1.5, 8.5} x {-2^62, -2^31-1, -2, -1, 0, 1, 2, 3, -0.5, -1.5, 0.5, 2.5, absent} (every pair, every run); Group-4 images whose decoded size is exactly 2^26-1, 2^26 and 2^26+1 bytes (factorisations of these numbers into bytes-per-row x rows chosen by the seed), one row beyond, /Rows capping longer data at the bound, and 1..4 GiB images, all-white or striped, height given or detected (quick tier: one image per class on the implementation, bound and bound+1 also through the model; thorough: ten images, all through the model, c05.sdcz). non-trivial = decoded without error to a non-empty string; distinct by (Filter, DecodeParms, data)."
 	exhaustiveSmall(c)
 	rawAlphabets(c)
 	tagTriples(c)
 	undecodable(c)
+	asciiByteClasses(c)
 	specEncoders(c)
 	RunDictLevel(c)
 	n := c.N(1200, 12000)
